@@ -97,6 +97,38 @@ def main():
             except Exception as exc:  # noqa: BLE001
                 cache["results"][str(j)] = "EXC:" + type(exc).__name__
                 continue
+            # same assignment text requested again with the keyword arguments in the other order and the formats of two
+            # same-order inputs exchanged: a different problem, which must not be served the earlier kernel
+            try:
+                ins_names = [n for n in case.formats if n != case.target[1]]
+                pair = None
+                for x in ins_names:
+                    for y in ins_names:
+                        if x < y and len(case.formats[x]) == len(case.formats[y]) and case.formats[x] != case.formats[y] \
+                                and taco.parse_fmt(case.formats[x])[0].__len__() == taco.parse_fmt(case.formats[y])[0].__len__():
+                            pair = (x, y)
+                if pair is not None:
+                    import dataclasses
+
+                    f2 = dict(case.formats)
+                    f2[pair[0]], f2[pair[1]] = case.formats[pair[1]], case.formats[pair[0]]
+                    case2 = dataclasses.replace(case, formats=f2, direct_problem=False, hollow=None)
+                    ins2 = engine.jit_inputs(case2)
+                    rev = {n: ins2[n] for n in reversed(list(ins2))}
+                    r4 = taco.read_raw(evaluate(case.assignment, out_fmt, **rev))
+                    _, ref = engine.reference(case2, engine.make_problem(case2))
+                    diff = engine.compare_values(taco.validate(*r4), ref)
+                    r5 = taco.read_raw(evaluate(case.assignment, out_fmt, **ins))
+                    cache["swapped_format_requests"] = cache.get("swapped_format_requests", 0) + 1
+                    if diff is not None or r5 != r1:
+                        cache["mismatch"].append({"case": d, "how": "same assignment, formats exchanged between two inputs, keyword order reversed",
+                                                  "exchanged": list(pair), "difference": repr(diff)[:200], "original_again_equal": r5 == r1})
+            except Exception as exc:  # noqa: BLE001
+                if type(exc).__name__ in ("NoKernelFoundError", "DiagonalAccessError", "BroadcastTargetIndexError"):
+                    cache["swapped_format_requests_refused"] = cache.get("swapped_format_requests_refused", 0) + 1  # a documented refusal of the other problem
+                else:
+                    cache["mismatch"].append({"case": d, "how": "same assignment, formats exchanged between two inputs, keyword order reversed",
+                                              "raised": f"{type(exc).__name__}: {exc}"[:300]})
             cache["checked"] += 1
             if not (r1 == r2 == r3):
                 cache["mismatch"].append({"case": d, "first": repr(r1)[:300], "warm": repr(r2)[:300], "cleared": repr(r3)[:300]})
